@@ -133,6 +133,29 @@ func Built() []Seed {
 		{Marker: 0xC2, Data: build.SOF(8, 1, 65535, [][3]byte{{1, 0x11, 0}, {2, 0x11, 0}, {3, 0x11, 0}, {4, 0x11, 0}})}}
 	d, m = build.JPEG{Segs: segs, SOS: []byte{1, 1, 0, 0, 0, 0}, Entropy: []byte{7}}.Bytes()
 	add("jpeg-cmyk-prog", d, m)
+	// the application-segment vocabulary, twice: between the ICC chunks with the frame header last (the parser walks
+	// over every segment), and with no profile at all
+	for vi, withICC := range []bool{true, false} {
+		var vs []build.Seg
+		for ki, k := range build.VocabKinds {
+			vs = append(vs, build.Vocab(k, ki*7+vi))
+		}
+		vs = append(vs, build.Vocab("photoshop", 7), build.Vocab("exif", 3))
+		segs = nil
+		if withICC {
+			ic := build.ICCSegs(profile(true, 40), []int{200, 200})
+			segs = append(segs, vs[0], ic[0])
+			segs = append(segs, vs[1:7]...)
+			segs = append(segs, ic[1])
+			segs = append(segs, vs[7:]...)
+			segs = append(segs, ic[2:]...)
+		} else {
+			segs = append(segs, vs...)
+		}
+		segs = append(segs, build.Seg{Marker: 0xC0, Data: build.SOF(8, 480, 640, [][3]byte{{1, 0x22, 0}, {2, 0x11, 1}, {3, 0x11, 1}})})
+		d, m = build.JPEG{Segs: segs, SOS: []byte{1, 1, 0, 0, 63, 0}, Entropy: []byte{9}}.Bytes()
+		add(fmt.Sprintf("jpeg-vocab-%d", vi), d, m)
+	}
 	// PNG 16-bit paletted-less, iCCP first
 	d, m = build.PNG{W: 1, H: 1<<31 - 1, Depth: 16, ColorType: 2, Interlace: 1, Pre: []build.Chunk{build.ICCPChunk("x", profile(true, 0), 0)}, IDAT: []byte{0}}.Bytes()
 	add("png-16", d, m)
